@@ -41,6 +41,10 @@ type Run struct {
 	knownHit     map[string]bool
 	known        map[string]string // sig -> text (finding: lines for this property)
 	inconclusive []string
+	// soft: per-case watchdog firings (a child that did not finish on a loaded machine). Up to SoftMax of them are
+	// tolerated and reported in the evidence; more make the run inconclusive.
+	soft    []string
+	SoftMax int
 }
 
 func NewRun(id, level string) *Run {
@@ -56,6 +60,10 @@ func NewRun(id, level string) *Run {
 	}
 	r := &Run{ID: id, Tier: tier, Seed: seed, Level: level, start: time.Now(), cov: map[string]any{},
 		counters: map[string]int64{}, violSigs: map[string]bool{}, knownHit: map[string]bool{}, known: map[string]string{}}
+	r.SoftMax = 3
+	if tier == "thorough" {
+		r.SoftMax = 30
+	}
 	r.loadKnown()
 	return r
 }
@@ -163,6 +171,13 @@ func (r *Run) Inconclusive(why string) {
 	r.mu.Unlock()
 }
 
+// SoftInconclusive records a per-case watchdog firing.
+func (r *Run) SoftInconclusive(why string) {
+	r.mu.Lock()
+	r.soft = append(r.soft, why)
+	r.mu.Unlock()
+}
+
 // Require marks the run inconclusive unless the counter reached min: a run
 // that observed too little proves nothing.
 func (r *Run) Require(counter string, min int64) {
@@ -195,6 +210,18 @@ func (r *Run) Finish(evaluations, distinctNontrivial int64, rule string) {
 		r.samples = append(r.samples, "no sample recorded")
 	}
 	cov["samples"] = r.samples
+	if len(r.soft) > 0 {
+		max := r.SoftMax
+		if max == 0 {
+			max = 2
+		}
+		cov["per_case_watchdog_firings"] = r.soft[:min(len(r.soft), 10)]
+		cov["per_case_watchdog_firings_count"] = len(r.soft)
+		cov["per_case_watchdog_firings_tolerated"] = max
+		if len(r.soft) > max {
+			r.inconclusive = append(r.inconclusive, fmt.Sprintf("%d cases hit a watchdog (more than the %d tolerated), first: %s", len(r.soft), max, r.soft[0]))
+		}
+	}
 	if len(r.inconclusive) > 0 {
 		cov["inconclusive"] = r.inconclusive
 	}
